@@ -431,8 +431,17 @@ void call_and_check( Outcome& o, int con_no, std::size_t out_given, const std::u
 
     if ( expected )
     {
+        // A request that ends before its last mandatory field (ATT: fixed part of the PDU) can not be answered from "the bytes
+        // of that PDU" alone: a success response to it means the missing field was taken from somewhere else.
+        static const struct { int op; std::size_t min; } mandatory[] = {
+            { 0x02, 3 }, { 0x04, 5 }, { 0x06, 7 }, { 0x08, 7 }, { 0x0A, 3 }, { 0x0C, 5 }, { 0x0E, 5 }, { 0x10, 7 },
+            { 0x12, 3 }, { 0x16, 5 }, { 0x18, 2 } };
+        std::size_t min_len = 1;
+        for ( const auto& m : mandatory ) if ( m.op == op ) min_len = m.min;
+
         if ( out_size == 0 )                              { sig = "framing:no-response:";    what = "request got no response: "; }
         else if ( !is_error && out[ 0 ] != expected )     { sig = "framing:wrong-response:"; what = "request answered with "; }
+        else if ( !is_error && len < min_len )            { sig = "framing:truncated-request-accepted:"; what = "request shorter than its mandatory fields answered with "; }
     }
     else if ( op == 0x52 || op == 0xD2 )
     {
